@@ -396,7 +396,7 @@ impl From<&Model> for EnergyProps {
                 dv.sort_unstable();
                 dv.dedup();
                 dv.iter()
-                    .map(|id| sch_day.get(id).unwrap())
+                    .filter_map(|id| sch_day.get(id))
                     .collect::<Vec<_>>()
             });
         // 5. Acumula las horas ocupadas en cada día para todos los horarios diarios
